@@ -54,7 +54,20 @@ fn scenario(rng: &mut Rng, n: usize, idx: usize) -> Scenario {
     let w = *rng.pick(&[0usize, 0, 0, 1, 2, 5]);
     let data = gen_stream(n, seed, k, t, w);
     let genc = format!("gen {n} {seed} {k} {t} {w}");
-    match idx % 6 {
+    match idx % 9 {
+        8 => {
+            // two writers share the write end of one pipe (an asynchronous built-in and a synchronous one
+            // in the same pipeline stage): whatever the interleaving, every byte of both arrives exactly
+            // once (the order between the two streams is the schedule's, so only the length is pinned)
+            let m = *rng.pick(&[n, n / 2, 1500, 3000]);
+            let script = format!("{{ {genc} & gen {m} {} 0 0 0; wait; }} | sink t8\n", seed + 1);
+            Scenario {
+                script,
+                expect: vec![("t8".into(), vec![(data.len() + m).to_string(), "*".into(), "ok".into()])],
+                kind: "two writers on one pipe",
+                n,
+            }
+        }
         0 | 1 => {
             // gen | relay* | sink
             let stages = rng.range(0, 2 + (idx % 2));
@@ -140,6 +153,29 @@ fn scenario(rng: &mut Rng, n: usize, idx: usize) -> Scenario {
                 n,
             }
         }
+        6 | 7 => {
+            // `<<-` here-documents: exactly the leading tabs of every line (and of the delimiter line)
+            // are removed - spaces, and tabs after a space, are content
+            let quoted = idx % 9 == 6;
+            let lines = (n / 30).clamp(1, 200);
+            let mut src = String::new();
+            let mut want = String::new();
+            let indents = ["", "\t", "\t\t", " ", "  ", "\t ", " \t", "\t \t", "    ", "\t\t  x"];
+            for i in 0..lines {
+                let ind = *rng.pick(&indents);
+                let l: String = (0..rng.range(0, 20)).map(|j| (b'a' + ((i + j) % 26) as u8) as char).collect();
+                src.push_str(&format!("{ind}{l} \t{l}\n"));
+                want.push_str(&format!("{}{l} \t{l}\n", ind.trim_start_matches('\t')));
+            }
+            let delim_indent = *rng.pick(&["", "\t", "\t\t"]);
+            let script = format!("sink t7 <<-{}\n{src}{delim_indent}E_O_F\n", if quoted { "'E_O_F'" } else { "E_O_F" });
+            Scenario {
+                script,
+                expect: vec![("t7".into(), sink_args(want.as_bytes()))],
+                kind: if quoted { "quoted <<- here-document" } else { "expanding <<- here-document" },
+                n: src.len(),
+            }
+        }
         _ => {
             // expanding here-document: safe alphabet plus a parameter expansion per line
             let lines = (n / 40).min(200);
@@ -173,7 +209,7 @@ fn run_one(sc: &Scenario, strategy: Strategy) -> (Result<(), String>, vsh::VOut)
                 return Err(format!("consumer {tag} reported {} times", evs.len()));
             }
             let got = &evs[0].args[1..];
-            if got != &want[..] {
+            if got.len() != want.len() || got.iter().zip(want.iter()).any(|(g, w)| w != "*" && g != w) {
                 let show = |v: &[String]| -> String {
                     v.iter()
                         .map(|s| if s.len() > 80 { format!("<{} bytes, hash {:016x}>", s.len(), fnv(s.as_bytes())) } else { format!("{s:?}") })
